@@ -7,6 +7,7 @@
 # License: BSD
 # ------------------------------------------------------------------------------
 
+import copy
 from typing import Any, List, Tuple, cast
 
 from . import c_ast
@@ -168,11 +169,14 @@ def _fix_atomic_specifiers_once(
 
     assert isinstance(parent, c_ast.TypeDecl)
     assert grandparent is not None
-    if node.type.coord is None:
+    # The specifier node is shared by all the declarators of a declaration
+    # (_Atomic(int) a, b;): give each of them its own copy of the type.
+    new_type = copy.deepcopy(node.type)
+    if new_type.coord is None:
         # Preserve the declarator coord for _Atomic(T) so TypeDecl doesn't lose
         # its location when we replace the wrapper Typename.
-        node.type.coord = parent.coord
-    cast(Any, grandparent).type = node.type
-    if "_Atomic" not in node.type.quals:
-        node.type.quals.append("_Atomic")
+        new_type.coord = parent.coord
+    cast(Any, grandparent).type = new_type
+    if "_Atomic" not in new_type.quals:
+        new_type.quals.append("_Atomic")
     return decl, True
